@@ -25,6 +25,46 @@ CHECKS = {
    technique='explicit-state BFS over RPC histories (Init/Mount/Check/Unmount/Close/restart) of the real fusemanager.Server with injected backend failures and crash-restarts at every statement-level crash hook, canonical-state deduplication, per-state invariant vs a ghost model',
    text='Every history up to depth 5 (quick) / 6 (thorough) with <=1 / <=2 failure deviations and crash-restarts; after every op: store record vs served mountpoints, routing of Check/Unmount to the mounting instance, no double mount, restore after restart with recorded labels, unknown unmount succeeds, RPCs before initialisation fail.',
    note='service.NewFileSystem and mountinfo.GetMounts replaced by recording fakes through instrumentation seams; bbolt commit atomic; process crash model (no power loss)'),
+ 'C03': dict(level='exploration', design='3/C03',
+   technique='bounded-exhaustive enumeration of input tars x builder configurations on the real builder, checked by an independent from-the-spec reader',
+   text='All tars of <=2 entries over a 13-symbol alphabet and <=3 over a 7-symbol core x {Build, Writer.AppendTar, AppendTar twice, AppendTarLossLess} x chunk sizes x min-chunk sizes x {gzip, zstd:chunked, external TOC} x prioritized x input compression x workers 1..4; oracle: gunzip|tar of the output equals the input (last duplicate wins) + landmark/TOC additions, from-the-spec reading (footer->TOC->offset/innerOffset/size/digest) reproduces every file, TOCDigest/DiffID/UncompressedSize recomputed, lossless byte equality.',
+   note='archive/tar, compress/flate, klauspost zstd as references; lib/enumx/blob.go does not import estargz'),
+ 'C05': dict(level='exploration', design='3/C05',
+   technique='bounded-exhaustive differential enumeration (memory vs db metadata store) over builder outputs and hand-assembled spec-conforming TOCs; explicit-state histories for multi-layer isolation in one bolt DB',
+   text='Every tar of <=3/4 entries x builder option sets x {gzip, zstd:chunked} plus 404 hand-made spec-conforming TOCs in 17 families; both stores compared on accept/reject, TOC digest, tree, attrs, xattrs, link counts, chunk table for every offset, ReadAt grid, pre-reader call sequences, Clone; all open/walk/close histories of <=3 layers in one DB up to depth 4/6.',
+   note='differential oracle only (no hand-written expectations); NumLink 0 and 1 equated (node.go maps 0 to 1); unknown entry types / hardlinks without target treated as non-conforming (accept/reject only)'),
+ 'C08': dict(level='model_checking', design='3/C08',
+   technique='explicit-state BFS over snapshotter call histories with backend failure deviations on the real snapshotter (real bolt metastore and directories, recording fake FileSystem), canonical-state deduplication, per-transition invariants',
+   text='Every history up to depth 4 (quick) / 5 (thorough) over Prepare(with/without target)/View/Commit/Mounts/Remove/Cleanup/Walk/Update/Close x keys/targets/parents x <=1/<=2 failing backend calls x sync/async removal; invariants (a)-(e) of the statement after every transition; Walk/Stat compared with an independent metadata reader.',
+   note='lib/recfs replaces the FUSE backend; sequential callers only (the concurrent-callers part of the design is not built)'),
+ 'C09': dict(level='fault_enumeration', design='3/C09',
+   technique='exhaustive crash-image enumeration: crash hook before every statement of snapshot.go (generated by instrumentation) and entry-by-entry RemoveAll, distinct disk images restarted under every restore configuration and mount-failure assignment',
+   text='For every history of depth <=2/3 followed by one armed operation: every distinct crash image x {restore, no-restore} x allow_invalid x all ok/fail assignments to restore mounts; oracle: start succeeds or fails exactly as allow_invalid prescribes, mount table = committed remote snapshots with stored labels, acknowledged snapshots present and usable, one Cleanup leaves exactly the live directories.',
+   note='process-crash model (no power loss, bbolt commit atomic); FUSE mounts of the dead process are gone'),
+ 'C11': dict(level='model_checking', design='3/C11',
+   technique='stateless schedule exploration (preemption-bounded DFS, happens-before state caching) of the real directory/memory chunk cache under a cooperative scheduler; file-system namespace operations are scheduling points',
+   text='2-3 threads (writers with commit/abort/leave-open/zero-length/direct/split writes, readers incl. direct) x pre-population x cache configurations with data LRU = fd LRU = 1 over 3 keys on real tmpfs files; self-describing values; a hit must return exactly a value whose Commit was invoked, never a prefix/other key/uncommitted bytes, and must not change or fail while held.',
+   note='sequential consistency at instrumented sync and os namespace operations; groupcache/lru uninstrumented'),
+ 'C12': dict(level='model_checking', design='3/C12',
+   technique='explicit-state BFS (canonical-state dedup) over Resolve/Done/Close/expiry/registry-down/Check/Refresh/read histories of the real layer.Resolver over an in-memory registry with terminal probes; stateless schedule exploration of concurrent holders',
+   text='All histories of depth 3 (quick) / 5 (thorough) over 2 layers x 2 holders with a failing k-th request as deviation; reference model of cache membership; after every op an instance is closed iff uncached and unheld; every state followed by: holders read correctly, release all, TTL passes, everything closed, cache directories and descriptors gone, re-resolve works.',
+   note='lib/memreg replaces the network; reads through the layer reader not FUSE nodes; virtual time; CheckAlways=true'),
+ 'C14': dict(level='exploration', design='3/C14',
+   technique='bounded-exhaustive enumeration of (tar, prioritized list, options) on the real builder against a reference implementation of the layout contract and a from-the-spec blob reader',
+   text='All tars of <=3 entries x prioritized lists of length <=2 (4 entries x <=1) over existing paths in four spellings, directory, root, hardlink, empty file, missing path x allow-not-found x chunk/min-chunk/worker settings; leading group order, single landmark at a stream boundary, chunk offsets before/after the landmark, multiset of entries, not-found handling.',
+   note='reference layout model lib/enumx.Layout; archive/tar and compress/flate as references'),
+ 'C15': dict(level='model_checking', design='3/C15',
+   technique='exhaustive configuration x fault-position enumeration on the real layer stack over an in-memory registry (request log as observation) + stateless schedule exploration of concurrent Prefetch/Wait/BackgroundFetch with failures and stalls under virtual time',
+   text='5 built layers x prefetch size x async threshold x prefetch/registry chunk sizes x failure of the k-th request for every k: prioritized reads after prefetch cause zero requests, no-prefetch landmark causes none, configured size fetched without landmarks, offline reads after background fetch; waiting returns in every schedule (end, failure, async, stall + timeout).',
+   note='lib/memreg replaces the network; a stalled request never answers; virtual prefetch timeout'),
+ 'C18': dict(level='model_checking', design='3/C18',
+   technique='explicit-state search of CRI keychain histories against a reference map with checked state merging; exhaustive registry-personality x request-path histories with a complete request-log oracle; stateless schedule exploration of fetch vs URL refresh',
+   text='Keychain: all 4913 reference states x every operation, all histories to depth 4/5, all (host, reference) queries after every step. HTTP: every personality (redirects, expiring CDN URL, 401 token flow, mirror) x every history of depth 3/4 over read/check/refresh/cache; header and credential confinement checked on every logged request; concurrent fetch/check/refresh under the scheduler with url/header watched.',
+   note='in-memory CRI backend and registry; docker authorizer real'),
+ 'C20': dict(level='exploration', design='3/C20',
+   technique='bounded-exhaustive enumeration of manifests through containerd ChildrenHandler and both label handlers, then every label subset removed / corrupted, checked against the manifest',
+   text='n=0..5 layers and label-limit boundary sizes x repeated digests x 11 URL menus x media types x both handlers x prefetch sizes; labels validated with containerd labels.Validate; reconstructed ref/digest/URLs/neighbour prefix/prefetch size compared with the manifest; every subset of emitted labels removed and each corrupted from a menu.',
+   note='oracle compares with the manifest, not with the labels; service.sources and fs.neighboringLayers reached through in-package exports'),
 }
 
 NOT_YET = 'check not built yet in this session (work in progress; see DESIGN.md section 3)'
